@@ -1,7 +1,7 @@
 (* Proofs_Fields.v — field edits: select, remove, set from lists / flat values / per-row values. *)
 From Coq Require Import String List Arith Bool ZArith Lia.
 Import ListNotations.
-From NP Require Import Base Values Arrow Abs Kernels Logical ExtArray Codec Steps Proofs_Views Proofs_Codec.
+From NP Require Import Base Values Arrow Abs Kernels Logical ExtArray Codec Steps Proofs_Views Proofs_Codec Proofs_Norm.
 
 Local Open Scope nat_scope.
 
@@ -1023,7 +1023,7 @@ Lemma m_set_list_field_eq p nm ty v keep : chunks p <> [] ->
   if keep && negb (has_name (map fst (ctype p)) nm) then Err else
   if keep && negb (type_ok_b (ctype p) nm ty) then Err else
   if negb (la_len v =? m_len p) then Err else
-  if m_validate (set_result nm ty v p) then Ok (set_result nm ty v p) else Err.
+  if m_validate (set_result nm ty v p) then Ok (m_drop_hidden (set_result nm ty v p)) else Err.
 Proof.
   intro Hch. unfold m_set_list_field, m_field_names. destruct (chunks p) eqn:E; [congruence|]. rewrite <- E.
   reflexivity.
@@ -1052,27 +1052,6 @@ Lemma op_ok_setlist p nm ty v keep : op_ok p (OSetList nm ty v keep) = true ->
 Proof.
   cbn [op_ok]. intro H. apply andb_true_iff in H as [H H3]. apply andb_true_iff in H as [H1 H2].
   repeat split; try assumption. intro E. rewrite E, Nat.eqb_refl in H3. exact H3.
-Qed.
-
-Lemma setlist_refines p nm ty v keep : inv_b p = true -> op_ok p (OSetList nm ty v keep) = true ->
-  res_map abs (m_step p (OSetList nm ty v keep)) = spec_step (abs p) (OSetList nm ty v keep).
-Proof.
-  intros Hinv Hop. destruct (inv_b_parts p Hinv) as (_ & _ & Hch & _ & Hok).
-  destruct (op_ok_setlist p nm ty v keep Hop) as (Hwf & Hall & _).
-  cbn [m_step spec_step]. rewrite (m_set_list_field_eq p nm ty v keep Hch).
-  unfold spec_col_set_lists. cbn [lsch abs]. change (lsch (abs p)) with (ctype p).
-  change (name_in (names_of (abs p)) nm) with (has_name (map fst (ctype p)) nm).
-  destruct (keep && negb (has_name (map fst (ctype p)) nm)); [reflexivity|].
-  rewrite type_check_eq.
-  destruct (keep && negb (type_ok_b (ctype p) nm ty)); [reflexivity|].
-  rewrite (length_olists _ _ Hwf). rewrite <- len_refines.
-  destruct (la_len v =? m_len p) eqn:El; [|reflexivity]. cbn [negb]. apply Nat.eqb_eq in El.
-  rewrite (validate_set_result p nm ty v Hinv Hwf Hall El).
-  change (match ctype p with [nt] => String.eqb (fst nt) nm | _ => false end) with (only_b (ctype p) nm).
-  rewrite <- negb_orb.
-  destruct (only_b (ctype p) nm || list_eqb Nat.eqb (map (@length val) (map (@olist val) (la_lists v))) (lrow_lengths (abs p)));
-    [|reflexivity].
-  cbn [negb res_map]. rewrite (abs_set_result p nm ty v Hinv Hwf Hall El). reflexivity.
 Qed.
 
 Lemma forallb2_app {A B} (f : A -> B -> bool) : forall l1 m1 l2 m2, length l1 = length m1 ->
@@ -1158,6 +1137,28 @@ Proof.
     + cbn [Nat.add]. rewrite Ht, <- Hld, slice_all. exact Hnm.
 Qed.
 
+Lemma setlist_refines p nm ty v keep : inv_b p = true -> op_ok p (OSetList nm ty v keep) = true ->
+  res_map abs (m_step p (OSetList nm ty v keep)) = spec_step (abs p) (OSetList nm ty v keep).
+Proof.
+  intros Hinv Hop. destruct (inv_b_parts p Hinv) as (_ & _ & Hch & _ & Hok).
+  destruct (op_ok_setlist p nm ty v keep Hop) as (Hwf & Hall & Hnm).
+  cbn [m_step spec_step]. rewrite (m_set_list_field_eq p nm ty v keep Hch).
+  unfold spec_col_set_lists. cbn [lsch abs]. change (lsch (abs p)) with (ctype p).
+  change (name_in (names_of (abs p)) nm) with (has_name (map fst (ctype p)) nm).
+  destruct (keep && negb (has_name (map fst (ctype p)) nm)); [reflexivity|].
+  rewrite type_check_eq.
+  destruct (keep && negb (type_ok_b (ctype p) nm ty)); [reflexivity|].
+  rewrite (length_olists _ _ Hwf). rewrite <- len_refines.
+  destruct (la_len v =? m_len p) eqn:El; [|reflexivity]. cbn [negb]. apply Nat.eqb_eq in El.
+  change (match ctype p with [nt] => String.eqb (fst nt) nm | _ => false end) with (only_b (ctype p) nm).
+  rewrite <- negb_orb. rewrite <- (validate_set_result p nm ty v Hinv Hwf Hall El).
+  destruct (m_validate (set_result nm ty v p)) eqn:Hval; [|reflexivity].
+  cbn [negb res_map].
+  (* nothing is offered for a missing row (op_ok): the result is already normalised, _drop_hidden_elements keeps it *)
+  rewrite (drop_hidden_id _ (inv_norm _ (inv_set_result p nm ty v Hinv Hwf Hall El (Hnm El) Hval))).
+  rewrite (abs_set_result p nm ty v Hinv Hwf Hall El). reflexivity.
+Qed.
+
 Lemma setlist_inv p nm ty v keep p' : inv_b p = true -> op_ok p (OSetList nm ty v keep) = true ->
   m_step p (OSetList nm ty v keep) = Ok p' -> inv_b p' = true.
 Proof.
@@ -1168,7 +1169,9 @@ Proof.
   destruct (keep && negb (type_ok_b (ctype p) nm ty)); [discriminate|].
   destruct (la_len v =? m_len p) eqn:El; [|discriminate]. cbn [negb] in H. apply Nat.eqb_eq in El.
   destruct (m_validate (set_result nm ty v p)) eqn:Hval; [|discriminate].
-  inversion H; subst p'. apply inv_set_result; auto.
+  inversion H; subst p'.
+  rewrite (drop_hidden_id _ (inv_norm _ (inv_set_result p nm ty v Hinv Hwf Hall El (Hnm El) Hval))).
+  apply inv_set_result; auto.
 Qed.
 
 (* ================= set_flat_field ================= *)
@@ -1407,6 +1410,160 @@ Proof.
   apply (setflat_inv p nm ty (FArray (flat_repeat vs (lrow_lengths (abs p)))) keep p' Hinv eq_refl H).
 Qed.
 
+(* ================= set_list_field normalises (repair "a missing row holds nothing") ================= *)
+
+Lemma set_chunk_shape sch nm ty v c s :
+  wf_chunk_b sch c = true -> wf_larr_b (la_len v) v = true -> s + sc_len c <= la_len v ->
+  wf_chunk_b (upsert_schema sch (nm, ty)) (set_chunk nm ty v c s) = true.
+Proof.
+  intros Hwfc Hwf Hle.
+  assert (Hw : wf_larr_b (sc_len c) (la_slice s (s + sc_len c) v) = true).
+  { pose proof (wf_la_slice (la_len v) v s (s + sc_len c) Hwf ltac:(lia) Hle) as H.
+    replace (s + sc_len c - s) with (sc_len c) in H by lia. exact H. }
+  unfold wf_chunk_b. rewrite set_chunk_eq. unfold sc_schema, sc_len. cbn [sfields svalid].
+  rewrite sc_schema_upsert. cbn [newfield fname fty].
+  pose proof (chunk_schema _ _ Hwfc) as Hs. unfold sc_schema in Hs. rewrite Hs, schema_eqb_refl. cbn [andb].
+  unfold wf_chunk_b in Hwfc. apply andb_true_iff in Hwfc as [_ Hf].
+  apply forallb_upsert; [exact Hf|exact Hw].
+Qed.
+
+Lemma set_chunks_shape sch nm ty v : wf_larr_b (la_len v) v = true ->
+  forall cs s, (forall c, In c cs -> wf_chunk_b sch c = true) -> s + total_len cs <= la_len v ->
+  forall c', In c' (set_chunks nm ty v s cs) -> wf_chunk_b (upsert_schema sch (nm, ty)) c' = true.
+Proof.
+  intros Hwf. induction cs as [|c cs IH]; intros s Hall Hle c' Hin; [destruct Hin|].
+  rewrite set_chunks_cons in Hin. unfold total_len in *. cbn [map sum] in *.
+  destruct Hin as [<-|Hin].
+  - apply set_chunk_shape; [apply Hall; left; reflexivity|exact Hwf|lia].
+  - apply (IH (s + sc_len c)); [intros c0 Hc0; apply Hall; right; exact Hc0|lia|exact Hin].
+Qed.
+
+Lemma set_chunks_valid nm ty v :
+  forall cs s, (forall c, In c cs -> lists_valid_b c = true) -> s + total_len cs <= la_len v ->
+  forallb2 (fun s l : bool => implb s l) (concat (map svalid cs)) (slice s (s + total_len cs) (lvalid v)) = true ->
+  forall c', In c' (set_chunks nm ty v s cs) -> lists_valid_b c' = true.
+Proof.
+  induction cs as [|c cs IH]; intros s Hall Hle Ho c' Hin; [destruct Hin|].
+  rewrite set_chunks_cons in Hin. unfold total_len in *. cbn [map sum concat] in *.
+  rewrite <- (@slice_app _ (lvalid v) s (s + sc_len c) (s + (sc_len c + sum (map sc_len cs)))) in Ho by lia.
+  rewrite forallb2_app in Ho by (rewrite length_slice; [unfold sc_len; lia|lia|unfold la_len in Hle; lia]).
+  apply andb_true_iff in Ho as [Ho1 Ho2].
+  destruct Hin as [<-|Hin].
+  - pose proof (Hall c (or_introl eq_refl)) as Hlv.
+    unfold lists_valid_b in *. rewrite set_chunk_eq. cbn [sfields svalid].
+    apply forallb_upsert; [exact Hlv|]. cbn [newfield farr la_slice lvalid]. exact Ho1.
+  - apply (IH (s + sc_len c)); try assumption.
+    + intros c0 Hc0. apply Hall. right. exact Hc0.
+    + lia.
+    + rewrite <- Nat.add_assoc. exact Ho2.
+Qed.
+
+(* what set_list_field returns when it accepts *)
+Lemma set_list_field_ok p nm ty v keep q : m_set_list_field p nm ty v keep = Ok q ->
+  chunks p <> [] /\ la_len v = m_len p /\ m_validate (set_result nm ty v p) = true
+  /\ q = m_drop_hidden (set_result nm ty v p).
+Proof.
+  intros H.
+  assert (Hch : chunks p <> []).
+  { intro E. unfold m_set_list_field, m_field_names in H. rewrite E in H. discriminate. }
+  rewrite (m_set_list_field_eq p nm ty v keep Hch) in H.
+  destruct (keep && negb (has_name (map fst (ctype p)) nm)); [discriminate|].
+  destruct (keep && negb (type_ok_b (ctype p) nm ty)); [discriminate|].
+  destruct (la_len v =? m_len p) eqn:El; [|discriminate]. cbn [negb] in H. apply Nat.eqb_eq in El.
+  destruct (m_validate (set_result nm ty v p)) eqn:Hval; [|discriminate].
+  inversion H. auto.
+Qed.
+
+Lemma set_result_chunks p nm ty v : chunks p <> [] -> chunks (set_result nm ty v p) <> [].
+Proof.
+  intros Hch. unfold set_result. cbn [chunks]. intro E. apply (f_equal (@length schunk)) in E.
+  rewrite length_set_chunks in E. destruct (chunks p); [congruence|discriminate].
+Qed.
+
+(* N3 for set_list_field: whatever the column hides under its missing rows and whatever the offered array offers for
+   them (valid lists with elements included), the accepted result holds nothing under its missing rows.  Premises: the
+   chunks of the column have the declared schema (part of wf_b), the offered array is a valid Arrow list array (lengths of
+   offsets and validity, offsets monotone and within the values: not checked by the library, guaranteed by pyarrow). *)
+Lemma set_list_field_normalises_gen p nm ty v keep q :
+  (forall c, In c (chunks p) -> wf_chunk_b (ctype p) c = true) ->
+  wf_larr_b (la_len v) v = true ->
+  m_set_list_field p nm ty v keep = Ok q ->
+  norm_missing_all_b q = true /\ chunks q <> [].
+Proof.
+  intros Hc Hwf H. destruct (set_list_field_ok p nm ty v keep q H) as (Hch & El & Hval & ->).
+  assert (Ht : total_len (chunks p) = la_len v) by (rewrite El; reflexivity).
+  split; [|apply drop_hidden_chunks, set_result_chunks, Hch].
+  apply drop_hidden_norm_gen. intros c' Hin. split.
+  - apply (set_chunks_shape (ctype p) nm ty v Hwf (chunks p) 0 Hc); [rewrite Ht; simpl; lia|exact Hin].
+  - unfold m_validate, m_validate_chunk in Hval. rewrite forallb_forall in Hval. apply (Hval c' Hin).
+Qed.
+
+Theorem set_list_field_normalises p nm ty v keep q :
+  wf_b p = true -> wf_larr_b (la_len v) v = true ->
+  m_set_list_field p nm ty v keep = Ok q ->
+  norm_missing_all_b q = true /\ chunks q <> [].
+Proof.
+  intros Hwfp. apply set_list_field_normalises_gen. intros c Hin.
+  apply wf_b_spec in Hwfp as [_ Hc]. apply (Hc c Hin).
+Qed.
+
+(* if moreover every PRESENT row is offered a list (not a null), the result is well-formed (lists_valid_b asks just that),
+   and with distinct field names it satisfies the whole invariant; the logical column is that of the rebuilt column *)
+Theorem set_list_field_sound p nm ty v keep q :
+  wf_b p = true -> wf_larr_b (la_len v) v = true ->
+  forallb2 (fun s l : bool => implb s l) (concat (map svalid (chunks p))) (lvalid v) = true ->
+  m_set_list_field p nm ty v keep = Ok q ->
+  wf_b q = true /\ norm_missing_all_b q = true /\ chunks q <> []
+  /\ abs q = abs (set_result nm ty v p)
+  /\ (nodupb (map fst (ctype p)) = true -> inv_b q = true).
+Proof.
+  intros Hwfp Hwf Ho H. destruct (set_list_field_ok p nm ty v keep q H) as (Hch & El & Hval & ->).
+  pose proof (wf_b_spec p Hwfp) as [Hne Hc].
+  assert (Ht : total_len (chunks p) = la_len v) by (rewrite El; reflexivity).
+  assert (Hwfn : wf_b (set_result nm ty v p) = true).
+  { unfold wf_b. cbn [ctype set_result]. apply andb_true_iff. split.
+    - pose proof (upsert_schema_ne (ctype p) (nm, ty)) as Hn.
+      destruct (upsert_schema (ctype p) (nm, ty)); [congruence|reflexivity].
+    - apply forallb_forall. intros c' Hin. cbn [chunks set_result] in Hin.
+      rewrite (set_chunks_shape (ctype p) nm ty v Hwf (chunks p) 0 (fun c Hc' => proj1 (Hc c Hc'))
+                 ltac:(rewrite Ht; simpl; lia) c' Hin).
+      unfold m_validate, m_validate_chunk in Hval. rewrite forallb_forall in Hval. rewrite (Hval c' Hin).
+      rewrite (set_chunks_valid nm ty v (chunks p) 0 (fun c Hc' => proj2 (proj2 (Hc c Hc')))
+                 ltac:(rewrite Ht; simpl; lia)); [reflexivity| |exact Hin].
+      cbn [Nat.add]. rewrite Ht. unfold la_len. rewrite slice_all. exact Ho. }
+  destruct (drop_hidden_sound _ Hwfn) as (R1 & R2 & R3 & R4).
+  pose proof (set_result_chunks p nm ty v Hch) as Hchn.
+  repeat split; try assumption; [apply R4, Hchn|].
+  intros Hnd. apply drop_hidden_inv; try assumption.
+  cbn [ctype set_result]. apply NoDup_nodupb, upsert_schema_nodup, nodupb_NoDup, Hnd.
+Qed.
+
+(* in the vocabulary of op_ok (an all-valid offered array); op_ok's third demand, that nothing is offered for a missing
+   row, is no longer needed for the invariant of the result *)
+Corollary set_list_field_inv_any p nm ty v keep q :
+  wf_b p = true -> nodupb (map fst (ctype p)) = true ->
+  wf_larr_b (la_len v) v = true -> forallb (fun b => b) (lvalid v) = true ->
+  m_set_list_field p nm ty v keep = Ok q -> inv_b q = true.
+Proof.
+  intros Hwfp Hnd Hwf Hall H. destruct (set_list_field_ok p nm ty v keep q H) as (Hch & El & _ & _).
+  apply (set_list_field_sound p nm ty v keep q Hwfp Hwf); [|exact H|exact Hnd].
+  apply forallb2_implb_alltrue; [|exact Hall].
+  unfold la_len, m_len, ca_len in El. rewrite El, length_concat, map_map. reflexivity.
+Qed.
+
+(* a missing row that is offered a valid non-empty list: refused as layout before the mask, now dropped *)
+Definition cx_set_p : chunked :=
+  {| ctype := [("a"%string, TI64)];
+     chunks := [ {| svalid := [false];
+                    sfields := [ {| fname := "a"%string; fty := TI64;
+                                    farr := {| offs := [0; 0]; lvalid := [false]; child := [] |} |} ] |} ] |}.
+Definition cx_set_v : larr := {| offs := [0; 2]; lvalid := [true]; child := [VInt 1; VInt 2] |}.
+Example set_list_field_drops_offered_hidden :
+  inv_b cx_set_p = true /\ wf_larr_b (la_len cx_set_v) cx_set_v = true
+  /\ op_ok cx_set_p (OSetList "a" TI64 cx_set_v false) = false
+  /\ exists q, m_set_list_field cx_set_p "a" TI64 cx_set_v false = Ok q /\ inv_b q = true /\ abs q = abs cx_set_p.
+Proof. split; [reflexivity|]. split; [reflexivity|]. split; [reflexivity|]. eexists. repeat split; reflexivity. Qed.
+
 Print Assumptions viewfields_refines.
 Print Assumptions viewfields_inv.
 Print Assumptions popfields_refines.
@@ -1417,3 +1574,6 @@ Print Assumptions setflat_refines.
 Print Assumptions setflat_inv.
 Print Assumptions fill_refines.
 Print Assumptions fill_inv.
+Print Assumptions set_list_field_normalises.
+Print Assumptions set_list_field_sound.
+Print Assumptions set_list_field_inv_any.
